@@ -126,7 +126,7 @@ def inv_hrg(h):
 
 # ---------------------------------------------------------------- playing a call sequence on a Graph
 
-def play_graph(fggs, calls):
+def play_graph(fggs, calls, out=None):
     """returns (problems, final observation, trace).  A call is a list:
     ['add_node', label_i, id_i] ['remove_node', k] ['add_edge', label_k, [node refs], id_i] ['remove_edge', k]
     ['set_ext', [node refs]] ['copy']            node ref: ['n', k] existing k-th node, ['new', label_i, id_i] fresh node"""
@@ -188,6 +188,8 @@ def play_graph(fggs, calls):
         c = g.copy()
         if not (g == g and c == g):
             problems.append('== is not reflexive / copy not equal')
+    if out is not None:
+        out['obj'] = g
     return problems, observe_graph(g), trace
 
 
@@ -221,7 +223,7 @@ def build_rule(fggs, k):
     return fggs.HRGRule(mk_label(fggs, lhs_k), g)
 
 
-def play_hrg(fggs, calls, fgg=False):
+def play_hrg(fggs, calls, fgg=False, out=None):
     """calls: ['add_rule', k] ['set_start', label_k | name] ['add_edge_label', k] ['add_node_label', i] ['copy']
               FGG: ['add_domain', label_i, size] ['add_factor', label_k, size-tuple] ['new_finite_factor', name, size-tuple]"""
     import torch
@@ -287,4 +289,34 @@ def play_hrg(fggs, calls, fgg=False):
         problems += [f'after {call[0]}: {x}' for x in inv_hrg(h)]
         if problems:
             break
+    if out is not None:
+        out['obj'] = h
     return problems, observe_hrg(h), trace
+
+
+# ---------------------------------------------------------------- == across histories
+
+def has_implicit(obs):
+    return '#' in repr(obs)
+
+
+def eq_part(obs):
+    """the part of an observation that == is documented to compare: Graph: nodes, edges, externals; HRG: rules, start, label tables"""
+    return obs[1:4] if obs[0] == 'G' else obs[1:5]
+
+
+def compare_objects(a, obs_a, b, obs_b):
+    """problems with == between two live objects reached through different call sequences"""
+    p = []
+    ab, ba = (a == b), (b == a)
+    if ab != ba:
+        p.append('== is not symmetric')
+    if (a != b) == ab:
+        p.append('!= is not the negation of ==')
+    if eq_part(obs_a) != eq_part(obs_b):
+        if ab or ba:
+            p.append('== holds between objects that differ in nodes, edges, external nodes, rules or start symbol')
+    elif not has_implicit(obs_a) and not has_implicit(obs_b) and obs_a == obs_b:
+        if not (ab and ba):
+            p.append('== fails between two objects built by different call sequences that agree in every observation (all ids explicit)')
+    return p
